@@ -469,7 +469,9 @@ def main(argv=None) -> int:
     # the full closure, over a pool of variables (binder / variable coincidences need several quantifier steps in a row)
     vpool = (rm.evar(0), rm.evar(1), rm.svar(0), rm.svar(1), rm.mv(1),
              # pending substitutions and metavariables constrained in the OTHER sort with the same number
-             rm.esub(rm.mv(2), 0, rm.evar(1)), rm.ssub(rm.mv(2), 0, rm.svar(1)), rm.mv(3, S=(0,)), rm.mv(3, E=(0,)))
+             rm.esub(rm.mv(2), 0, rm.evar(1)), rm.ssub(rm.mv(2), 0, rm.svar(1)), rm.mv(3, S=(0,)), rm.mv(3, E=(0,)),
+             # an application-context metavariable whose hole is x0
+             rm.mv(3, H=(0,)))
     known2 = closure(chk, 4 if not thorough else 5, 11 if not thorough else 12, 0, 1500000 if not thorough else 6000000, agg,
                      seed_theorems, pool=vpool, unary_only=True, tag='chain')
     for t, w in known2.items():
